@@ -206,8 +206,9 @@ def run(ctx):
         return
     from vf.draw import draw_stratified
     from vf.runner import case_hash, load_regress
-    cases = load_regress(ctx.prop, name) + draw_stratified(strata(), 24 if ctx.quick else 250,
-                                                           ctx.seed)
+    cases = load_regress(ctx.prop, name) + gen_cfg.alternate_histories(
+        draw_stratified(strata(), 24 if ctx.quick else 250, ctx.seed),
+        ('edited', 'semantics', 'origin'))
     done = {}
 
     def check(case, workdir):
